@@ -64,6 +64,10 @@ MUTATIONS: list[tuple[str, str, str, str, list[str]]] = [
      "            exclusion_upper=max(\n                sum(battery.power_bounds.exclusion_upper for battery, _ in pairs_data),\n                sum(\n                    inverter.active_power_exclusion_upper_bound\n                    for _, inverters in pairs_data\n                    for inverter in inverters\n                ),\n            ),", ["C02"]),
     ("c02-manager-skips-zero-setpoints-of-other-sign", BM, "        distributed_power_value = (\n            request.power.as_watts() - distribution.remaining_power\n        )",
      "        distributed_power_value = (\n            request.power.as_watts() - distribution.remaining_power\n        )\n        distribution.distribution = {k: (v if abs(v) > 60.0 or v == 0.0 else 60.0 * (1 if v > 0 else -1)) for k, v in distribution.distribution.items()}", ["C01", "C02"]),
+    # ---- the timedelta.seconds slip at every place a configured duration is converted
+    ("c10-restart-delay-seconds", ACT, "delay = self.RESTART_DELAY.total_seconds()", "delay = self.RESTART_DELAY.seconds", ["C10"]),
+    ("c03-max-age-seconds", MAT, "max_proposal_age.total_seconds()", "max_proposal_age.seconds", ["C03"]),
+    ("c15-battery-timeout-seconds", BM, "            timeout=timeout.total_seconds(),", "            timeout=timeout.seconds,", ["C15"]),
     ("c02-split-ignores-incl", ALG, "new_power = min(incl_bounds[inverter_id], remaining_power)", "new_power = remaining_power",
      ["C02"]),
     ("c02-no-battery-clip-of-inverter-incl", ALG,
